@@ -117,7 +117,32 @@ func fmtMs(ms int64) string {
 
 // Check runs the history and compares every reported time with the model.
 // requireFromStart: C06's precondition (first observation not earlier than T).
-func Check(c Case, o *stats.Obs) error {
+func Check(c Case, o *stats.Obs) error { return CheckVia(c, o, nil) }
+
+// Feeder delivers the frames of a history to the code under test some other way (through the file
+// handler, through a program) and returns one message per frame; errors are not available that way.
+type Feeder func(start time.Time, frames [][]byte) ([]handler.Message, error)
+
+// CheckDisplayed is CheckVia for feeders that can only report the two time lines (a program's output).
+func CheckDisplayed(c Case, o *stats.Obs, feed Feeder) error {
+	wrapped := func(start time.Time, frames [][]byte) ([]handler.Message, error) {
+		msgs, err := feed(start, frames)
+		if err != nil {
+			return nil, err
+		}
+		if len(msgs) != len(c.Msgs) {
+			return nil, fmt.Errorf("the program showed %d MSM time lines for %d MSM frames", len(msgs), len(c.Msgs))
+		}
+		for i := range msgs {
+			msgs[i].Timestamp = Encode(c.Msgs[i].C, c.Msgs[i].U)
+		}
+		return msgs, nil
+	}
+	return CheckVia(c, o, wrapped)
+}
+
+// CheckVia is Check with the frames delivered by feed (nil: directly through a fresh handler).
+func CheckVia(c Case, o *stats.Obs, feed Feeder) error {
 	lv := slog.LevelInfo
 	if c.Debug {
 		lv = slog.LevelDebug
@@ -144,7 +169,21 @@ func Check(c Case, o *stats.Obs) error {
 		m := enc.MSM{Type: typ, StationID: uint(i & 4095), Timestamp: ts}
 		frames[i] = m.Frame()
 	}
-	if c.Stream {
+	if feed != nil {
+		c.Stream = true // no per-frame errors this way
+		msgs, err := feed(start, frames)
+		if err != nil {
+			o.Key = "feeder"
+			return err
+		}
+		if len(msgs) != len(frames) {
+			o.Key = "feeder"
+			return fmt.Errorf("%d messages came back for %d frames", len(msgs), len(frames))
+		}
+		for i := range msgs {
+			outs[i].m = &msgs[i]
+		}
+	} else if c.Stream {
 		var input []byte
 		for _, f := range frames {
 			input = append(input, f...)
@@ -286,7 +325,11 @@ var zones = []string{"UTC", "Europe/London", "Europe/Paris", "Europe/Moscow", "f
 // Gen draws a history.  anywhere=false is C06 (first observation of each
 // constellation in [T, end of T's week)); anywhere=true is C17 (first
 // observation anywhere in T's constellation week, before or after T).
-func Gen(t *rapid.T, anywhere bool) Case {
+func Gen(t *rapid.T, anywhere bool) Case { return GenAt(t, anywhere, false) }
+
+// GenAt: with midnightUTC the start time is 00:00:00 UTC of a drawn date (what displayrtcm3 makes of a
+// yyyy-mm-dd argument).
+func GenAt(t *rapid.T, anywhere bool, midnightUTC bool) Case {
 	var c Case
 	// start time: 1990..2060
 	lo := time.Date(1990, 1, 1, 0, 0, 0, 0, time.UTC).UnixMilli()
@@ -300,8 +343,15 @@ func Gen(t *rapid.T, anywhere bool) Case {
 	if rapid.Bool().Draw(t, "subMs") {
 		subMs = rapid.Int64Range(0, 999999).Draw(t, "startSubMsNs")
 	}
+	if midnightUTC {
+		baseMs = floorDiv(baseMs, msDay) * msDay
+		subMs = 0
+	}
 	c.StartNs = baseMs*1000000 + subMs
 	c.Zone = rapid.SampledFrom(zones).Draw(t, "zone")
+	if midnightUTC {
+		c.Zone = "UTC"
+	}
 	c.Debug = rapid.Bool().Draw(t, "debug")
 	c.Stream = rapid.IntRange(0, 3).Draw(t, "stream") == 0
 	startMsCeil := baseMs
